@@ -1,7 +1,52 @@
-"""counterexample search + replay (native, against the real crate)"""
-import os, json
-def find_counterexample(pid, violations, seed):
-    return None
+"""Counterexample search + replay, natively against the real crate (replay/src/search.rs: one randomized differential
+check per property against the oracle written from the property statements).  Verus gives no model, so a failed
+obligation is paired with this search; a found input is recorded as a tape and replays deterministically."""
+import os, json, re
+import vlib
+
+ITERS = {"quick": 6000, "thorough": 60000}
+
+
+def find_counterexample(pid, violations, seed, tier="quick"):
+    # a recorded/fixed finding's witness that misbehaves is itself a failing input replayed on the real code
+    for v in violations:
+        if v.get("kind") == "witness" and v.get("verdict") in ("reproduces", "other"):
+            return {"reproduced": True, "kind": "witness", "witness": v["witness"], "detail": v.get("detail")}
+    binp, err = vlib.build_replay()
+    if binp is None:
+        return {"reproduced": False, "error": "replay crate does not build: " + (err or "")[-300:]}
+    rc, out, se, dt = vlib.run([binp, "search", pid, str(seed), str(ITERS.get(tier, 6000))], timeout=600)
+    m = re.search(r"^FOUND (\{.*\})\s*$", out, re.M)
+    if m:
+        try:
+            c = json.loads(m.group(1))
+        except Exception:
+            c = {"raw": m.group(1)}
+        c.update({"reproduced": True, "kind": "search", "search_s": round(dt, 1)})
+        return c
+    m = re.search(r"NONE evaluations=(\d+) distinct=(\d+)", out)
+    return {"reproduced": False, "kind": "search", "evaluations": int(m.group(1)) if m else 0, "search_s": round(dt, 1),
+            "note": "no failing input found by the native search within its budget; the failed obligations and the verifier's output are in `violations`"}
+
+
 def replay_file(path):
-    print("not implemented yet")
-    return 2
+    rec = json.load(open(path))
+    binp, err = vlib.build_replay()
+    if binp is None:
+        print("replay crate does not build against the current tree:", err)
+        return 2
+    cex = rec.get("counterexample") or {}
+    print("property:", rec.get("property"))
+    for v in rec.get("violations", []):
+        print("  failed obligation:", v.get("obligation") or v.get("harness") or v.get("witness"), "|", (v.get("message") or v.get("detail") or "")[:200])
+    if cex.get("kind") == "search" and cex.get("tape"):
+        rc, out, se, dt = vlib.run([binp, "case", cex["check"], cex["tape"]], timeout=120)
+        print(out.strip())
+        return 1 if rc == 1 else 0
+    if cex.get("kind") == "witness":
+        res = vlib.run_witnesses(binp, [cex["witness"]])
+        v, d = res.get(cex["witness"], ("missing", ""))
+        print("WITNESS", cex["witness"], v, d)
+        return 1 if v in ("reproduces", "other") else 0
+    print("no failing input was recorded (no-failing-input-found): the file names the failed obligations and carries the verifier's output")
+    return 0
